@@ -891,6 +891,27 @@ theorem dataArm_located (v : SVariant ν) (hp : ∀ s, v.kind = .struct s → Po
     · simp only [Outcome.err.injEq] at h; subst h
       exact direct_new _ (by intro n d hh; cases hh)
 
+/-- attaching a span makes no located (or other) error an unlocated unknown-name error -/
+theorem direct_withSpan_nil (e : Err) (s : Span) (h : direct e = []) : direct (e.withSpan s) = [] := by
+  cases e with
+  | leaf k ls sp =>
+      cases sp with
+      | some t => exact h
+      | none => cases ls <;> cases k <;> first | rfl | (simp [direct] at h)
+  | multi cs ls sp => cases sp <;> exact h
+
+/-- what the selected variant reports, spanned with the selecting item -/
+theorem dataArm_spanned_located (v : SVariant ν) (hp : ∀ s, v.kind = .struct s → PostClean s) (nested : Meta) (E : Err)
+    (h : (dataArm v nested).mapErr (·.withSpan nested.span) = .err E) : direct E = [] := by
+  cases hd : dataArm v nested with
+  | ok x => rw [hd] at h; cases h
+  | panic m => rw [hd] at h; cases h
+  | err E0 =>
+      rw [hd] at h
+      simp only [Outcome.mapErr, Outcome.err.injEq] at h
+      subst h
+      exact direct_withSpan_nil _ _ (dataArm_located v hp nested E0 hd)
+
 /-- **C17 for an enum receiver**: the only unlocated unknown-name error it can report is about
     the single item it was handed, when no selectable variant answers to that name; the
     suggestion is the best selectable variant name, if similar enough -/
@@ -907,7 +928,7 @@ theorem enum_sound (e : SEnum ν) (hc : VariantsClean e) :
     | some v =>
         rw [harm] at h
         have hv : v ∈ e.variants := List.mem_of_find?_eq_some harm
-        rw [dataArm_located v (hc v hv) nested E h] at hmem; cases hmem
+        rw [dataArm_spanned_located v (hc v hv) nested E h] at hmem; cases hmem
     | none =>
         rw [harm] at h
         simp only [Outcome.err.injEq] at h; subst h
@@ -937,7 +958,7 @@ theorem enum_variant_scoped (e : SEnum ν) (hc : VariantsClean e) (nested : Meta
     (harm : e.arm nested.path'.toStr = some v) (E : Err)
     (h : enumFromList e [.item nested] = .err E) : direct E = [] := by
   simp only [enumFromList, harm] at h
-  exact dataArm_located v (hc v (List.mem_of_find?_eq_some harm)) nested E h
+  exact dataArm_spanned_located v (hc v (List.mem_of_find?_eq_some harm)) nested E h
 
 theorem finishStruct_loc (s : SStruct ν) (hpost : ∀ x, ∃ w, s.post x = .ok w) (l : String) (st : PState ν) (E : Err)
     (h : finishStruct s true (some l) st = .err E) :
@@ -1457,7 +1478,12 @@ theorem enumFromList_off (e e' : SEnum ν) (h : OffEnum e e') (outer : List Nest
     simp only
     rcases off_armV e e' h nested.path'.toStr with ⟨h1, h2⟩ | ⟨v, v', h1, h2, hv⟩
     · simp [h1, h2, Outcome.mapErr, off_unknownErrV e e' h, eraseAll_withSpan]
-    · simp only [h1, h2]; exact dataArm_off v v' hv nested
+    · simp only [h1, h2]
+      rw [dataArm_off v v' hv nested]
+      cases dataArm v nested with
+      | ok x => rfl
+      | panic m => rfl
+      | err E => simp only [Outcome.mapErr, eraseAll_withSpan]
   · simp [Outcome.mapErr, Err.unsupportedFormat, eraseAll_new, Kind.plain]
   · simp [Outcome.mapErr, eraseAll_new, Kind.plain]
 
